@@ -163,6 +163,13 @@ func pathOfD(v ssa.Value, d int) string {
 			if t := aliasTarget(x.X); t != nil {
 				return pathOfD(t, d+1)
 			}
+			if pathResolveStructs {
+				if fa, ok := x.X.(*ssa.FieldAddr); ok {
+					if t := localStructField(fa); t != nil {
+						return pathOfD(t, d+1)
+					}
+				}
+			}
 			return pathOfD(x.X, d+1)
 		}
 		if x.Op == token.ARROW {
@@ -2080,4 +2087,17 @@ func holdsAtOrViaFlag(b *ssa.BasicBlock, pred func(facts []canonCond) bool) bool
 		}
 	}
 	return false
+}
+
+
+// canonPath is pathOf with the fields of state structs built in place (tm := &state{mm: x}) replaced by the
+// values they were constructed with: "tm.mm.Timers" and "x.Timers" denote the same collection.  Used where two
+// access paths are compared for identity; not for rules that look at field names.
+var pathResolveStructs bool
+
+func canonPath(v ssa.Value) string {
+	old := pathResolveStructs
+	pathResolveStructs = true
+	defer func() { pathResolveStructs = old }()
+	return pathOf(v)
 }
